@@ -239,6 +239,44 @@ def relabel(ctx, p):
         ctx.require(_cmp(got, ref), f"{m} changes under relabelling / insertion order")
 
 
+BUILD_MEASURES = ["degree", "size", "incidence_matrix", "connected_components", "maximal", "density"]
+
+
+@harness("C09.build")
+def build(ctx, p):
+    """The same comparison for networks built through the public API (add_edge with
+    explicit ids in the given insertion order) instead of directly in the tables:
+    an id such as 0, a negative id or a non-increasing id sequence must not change
+    any structural quantity."""
+    shape = _shape(p["shape"])
+    N, M, edges = shape
+    lo, hi = WINDOW
+    nl = [ctx.int(f"n{i}", lo, hi, kind="L", group="n") for i in range(N)]
+    el = [ctx.int(f"e{j}", lo, hi, kind="L", group="e") for j in range(M)]
+    ctx.distinct(nl)
+    ctx.distinct(el)
+    no, eo = p["order"]
+    H = xgi.Hypergraph()
+    H._edge_uid = ctx.counter(0)
+    with warnings.catch_warnings():
+        warnings.simplefilter("ignore")
+        H.add_nodes_from([nl[i] for i in no])
+        for j in eo:
+            H.add_edge([nl[i] for i in edges[j]], idx=el[j])
+    ctx.info["op"] = "api-built:" + p["measure"]
+    ctx.info["args"] = {"nodes": nl, "edges": el, "node_order": no, "edge_order": eo}
+    ctx.require(len(H._edge) == M and all(e in H._edge for e in el), "a network built with explicit ids does not have exactly the requested edge ids")
+    if not (len(H._edge) == M and all(e in H._edge for e in el)):
+        return
+    m = p["measure"]
+    ref = reference(shape, m)
+    got = _run(m, H, nl, el)
+    if got[0] == "exc" and ref[0] != "exc":
+        ctx.require(False, f"{m} raises under relabelling although it is defined on the canonical labelling")
+    else:
+        ctx.require(_cmp(got, ref), f"{m} changes under relabelling / insertion order")
+
+
 def spec(tier, seed):
     import itertools
 
@@ -269,6 +307,8 @@ def spec(tier, seed):
                     continue
             for k, o in enumerate(orders):
                 units.append(("C09.relabel", {"shape": s, "measure": m, "order": o, "rev": bool(k % 2)}))
+                if m in BUILD_MEASURES and M > 0 and N + M <= 5:
+                    units.append(("C09.build", {"shape": s, "measure": m, "order": o}))
     return {
         "units": units,
         "caps": {"paths": 50000, "wall": 600},
